@@ -56,7 +56,7 @@ func optInt(o map[string]string, k string, d int) int {
 	return d
 }
 
-func (c *clusterT) newConfig() *config.Config {
+func (c *clusterT) newConfig(fixedPort int) *config.Config {
 	o := c.opts
 	cfg := config.New("local")
 	cfg.PartitionCount = uint64(optInt(o, "parts", 7))
@@ -73,9 +73,13 @@ func (c *clusterT) newConfig() *config.Config {
 	mc.BindAddr = "127.0.0.1"
 	mc.BindPort = 0
 	cfg.MemberlistConfig = mc
-	port, err := testutil.GetFreePort()
-	if err != nil {
-		panic(err)
+	port := fixedPort
+	if port == 0 {
+		var err error
+		port, err = testutil.GetFreePort()
+		if err != nil {
+			panic(err)
+		}
 	}
 	cfg.BindAddr = "127.0.0.1"
 	cfg.BindPort = port
@@ -115,7 +119,17 @@ func (c *clusterT) newConfig() *config.Config {
 }
 
 func (c *clusterT) addMember() (*member, error) {
-	cfg := c.newConfig()
+	m, err := c.startMember(0)
+	if err != nil {
+		return nil, err
+	}
+	c.members = append(c.members, m)
+	return m, nil
+}
+
+// startMember starts an olric member that joins the live members; port 0 = any free port
+func (c *clusterT) startMember(port int) (*member, error) {
+	cfg := c.newConfig(port)
 	for _, m := range c.members {
 		if m.alive {
 			iv := m.db.VerifInternals()
@@ -147,7 +161,6 @@ func (c *clusterT) addMember() (*member, error) {
 	addr := net.JoinHostPort(cfg.BindAddr, strconv.Itoa(cfg.BindPort))
 	m := &member{db: db, addr: addr, alive: true, dmaps: map[string]olric.DMap{}, cdmaps: map[string]olric.DMap{}}
 	m.emb = db.NewEmbeddedClient()
-	c.members = append(c.members, m)
 	return m, nil
 }
 
